@@ -1,10 +1,29 @@
-"""C13 — configuration of the check (deductive tier under construction)."""
+"""C13 — Quadtree enumeration and tile counts are consistent and match what is visited."""
 PROPERTY = "C13"
 LEVEL = "other"
-CONTRACT_MODULES = ["contracts.specfuns"]
-FUNCTIONS = []
-LEMMAS = []
-SLOW = ()
-TRUSTED_BASE = []
-ASSUMPTIONS = []
-EXPLANATION = "bounded run-time tier only so far"
+CONTRACT_MODULES = ["contracts.specfuns", "contracts.lemmas_desc", "contracts.pyramid"]
+FUNCTIONS = [
+    "toasty.pyramid.pos_parent",
+    "toasty.pyramid.pos_children",
+    "toasty.pyramid.is_subtile",
+    "toasty.pyramid.depth2tiles",
+    "toasty.pyramid.tiles_at_depth",
+    "toasty.pyramid._postfix_pos",
+    "toasty.pyramid.generate_pos",
+]
+LEMMAS = ["desc_child_step", "desc_child_pair", "desc_siblings_disjoint", "desc_levels", "desc_transitive",
+          "desc_root", "pow2_add"]
+SLOW = ("_postfix_pos/yields_seq",)
+TRUSTED_BASE = [
+    "pyvc VC generator: python subset semantics as stated in DESIGN.md 2.2 (ints unbounded, floor // and %)",
+    "z3 and cvc5 as SMT back ends",
+    "pow2 facts used by instantiation (positivity, doubling, monotonicity, pow2(2k) mod 3 == 1) follow from "
+    "pow2(0)=1, pow2(k+1)=2*pow2(k) by induction; only the listed lemmas are machine-checked",
+]
+ASSUMPTIONS = [
+    "coverage (every in-scope position is yielded) is not discharged as a VC: it follows from the discharged clauses "
+    "length == T(depth-n), in_scope and distinct by the pigeonhole principle over the finite scope; the bounded tier "
+    "checks it by enumeration",
+]
+EXPLANATION = ("Position algebra and the recursive generators are verified against sequence contracts by induction "
+               "(callee contract = induction hypothesis); reduction iterator and counters are bounded so far.")
